@@ -524,3 +524,25 @@ Section WithApi.
       + destruct (attr_text nc a); reflexivity.
   Qed.
 End WithApi.
+
+(* ---------- the premises of function_string_markers are met by a concrete function, and its conclusion has content ---------- *)
+Definition ex_doc : docstring := {| d_desc := K"Doc."; d_full := []; d_examples := [] |}.
+Definition ex_param : param :=
+  {| p_id := K"m/f/p"; p_name := K"p"; p_optional := false; p_default := DNone; p_assigned := NAME_ONLY; p_doc_type := None;
+     p_doc_default := []; p_doc_desc := []; p_type := Some (TTuple [TNamed (K"int") (K"builtins.int")]) |}.
+Definition ex_func : func :=
+  {| f_id := K"m/f"; f_name := K"f"; f_doc := ex_doc; f_public := true; f_static := false; f_classm := false; f_prop := false;
+     f_rdocs := []; f_tvars := []; f_results := []; f_reexported_by := []; f_params := [ex_param] |}.
+
+Example function_markers_example :
+  func_marks false [] false ex_func = [K"no tuple support"; K"REQ_NAME_ONLY"; K"result without type"] /\
+  (if negb false && negb false then shorter_reexport (f_name ex_func) (f_reexported_by ex_func) init_gst else None) = None /\
+  g_todos init_gst = [] /\
+  exists x s', function_string [] [] false ex_func [] false false init_gst = Ok (x, s') /\ g_todos s' = [] /\
+    starts_with (K"// TODO Result type information missing." ++ NL ++
+                 K"// TODO Safe-DS does not support required but name only parameter assignments." ++ NL ++
+                 K"// TODO Safe-DS does not support tuple types." ++ NL) x = true.
+Proof.
+  split; [vm_compute; reflexivity|]. split; [vm_compute; reflexivity|]. split; [reflexivity|].
+  eexists. eexists. split; [vm_compute; reflexivity|]. split; vm_compute; reflexivity.
+Qed.
